@@ -9,6 +9,8 @@ PHASE = {'From': 2, 'Zero': 2, 'One': 2, 'Neg': 3, 'Add': 3, 'Sub': 3, 'AddAssig
          'MulAssign': 5, 'DivAssign': 5, 'Signed': 6, 'DualNum': 7, 'BesselDual': 7, 'Inv': 8, 'Sum': 8, 'Product': 8, 'FloatConst': 8,
          'FromPrimitive': 8, 'Display': 9, 'PartialEq': 9, 'PartialOrd': 9}
 FIELD_TRAITS = {'ComplexField', 'RealField', 'Field', 'SimdValue', 'SubsetOf', 'SupersetOf', 'PrimitiveSimdValue'}
+FIELD_SKIP = {n: 'panics by design' for n in ('floor', 'ceil', 'round', 'trunc', 'fract')}
+FIELD_SKIP.update({n: 'outside the model (%s)' % n for n in ('is_finite', 'try_sqrt', 'min_value', 'max_value', 'cbrt_', 'to_exp', 'signum', 'rem_euclid')})
 REGISTER_TRAITS = {None, 'DualNum', 'Signed', 'Zero', 'One', 'Inv', 'From', 'BesselDual', 'PartialEq'} | set(OPS_TRAITS)
 
 
@@ -490,6 +492,56 @@ class Sections:
                     'why': 'hand-modelled (coq/ND/Hand/DerFmt.v), tied by correspondence', 'hash': ''})
         return '\n'.join(out) + '\n', cov
 
+    # -------------------------------------------------- nalgebra ComplexField / RealField impls (C11)
+    def emit_field(self):
+        """Gen_Field.v: the bodies of the ComplexField / RealField methods of the four field-compatible types.  Methods that
+        panic by design or use vocabulary outside the model are listed as untranslated."""
+        em = self.em
+        out = ['(* GENERATED by tools/emit.py: nalgebra ComplexField / RealField impls -- do not edit *)',
+               'From ND Require Import Overload Float Mat Opt Wire.',
+               'From NDgen Require Import Classes Gen_Derivative ' + ' '.join('Gen_' + s for s in DUAL_STRUCTS) + '.',
+               'Local Open Scope rs_scope.', '']
+        cov = []
+        bysec = OrderedDict()
+        for it in self.field_impls:
+            sname, _ = last_id(it['self_ty'])
+            trait = it['trait']['segs'][-1]['id']
+            if trait not in ('ComplexField', 'RealField') or sname not in DUAL_STRUCTS:
+                continue
+            bysec.setdefault(sname, []).append((trait, it))
+        for sname, impls in bysec.items():
+            sec = Section('Field_' + sname, sname, 'dual')
+            self_ty = '(%s T)' % sname
+            out.append('Section Field_%s.' % sname)
+            out.append('Context {F T : Type} {dnFT : DN F T} {ordT : DNOrd T}.')
+            out.append('#[local] Instance flF_%s : FL F := dn_fl (T:=T).' % sname)
+            out.append('#[local] Instance fv_sign_%s :' % sname + ' M_is_sign_positive T bool := fun t => fl_sign_pos (m_re t).')
+            out.append('#[local] Instance fv_sign_neg_%s : M_is_sign_negative T bool := fun t => negb (fl_sign_pos (m_re t)).' % sname)
+            out.append('#[local] Instance fv_ord_%s : HLtb %s %s := fun a b => hltb (f_re a) (f_re b).' % (sname, self_ty, self_ty))
+            out.append('#[local] Instance fv_simd_abs_%s : M_simd_abs %s %s := fun a => m_abs a.' % (sname, self_ty, self_ty))
+            for trait, it in impls:
+                for f in it['items']:
+                    if f['k'] != 'fn':
+                        continue
+                    name = f['sig']['name']
+                    defname = '%s_%s_%s' % (sname, trait, name)
+                    src = f.get('hash') or json.dumps(f, sort_keys=True)
+                    h = hashlib.sha256(src.encode()).hexdigest()[:16]
+                    try:
+                        if name in FIELD_SKIP:
+                            raise Untranslatable(FIELD_SKIP[name])
+                        params, body, rty, ctx = em.translate_fn(sec, f, self_ty, defname, None)
+                        rt = '' if rty == '_' else ' : %s' % rty
+                        out.append('(* %s %s :: %s  [%s] *)' % (sname, trait, name, h))
+                        out.append('Definition %s %s%s :=\n  %s.' % (defname, params, rt, body))
+                        if trait == 'ComplexField' and name == 'powf':
+                            out.append('#[local] Instance %s_inst : M_powf %s %s %s := %s.' % (defname, self_ty, self_ty, self_ty, defname))
+                        cov.append({'section': 'Field', 'module': sname, 'trait': trait, 'fn': name, 'def': defname, 'translated': True, 'why': None, 'hash': h})
+                    except Untranslatable as u:
+                        cov.append({'section': 'Field', 'module': sname, 'trait': trait, 'fn': name, 'def': None, 'translated': False, 'why': str(u), 'hash': h})
+            out.append('End Field_%s.\n' % sname)
+        return '\n'.join(out) + '\n', cov
+
     def emit_classes(self):
         em = self.em
         out = ['(* GENERATED by tools/emit.py: method / field classes and the DualNum interface record *)',
@@ -576,9 +628,11 @@ def main():
             cov.append({'section': name, 'module': fi.mod, 'trait': fi.trait, 'fn': fi.rname, 'def': fi.defname,
                         'translated': fi.ok, 'why': fi.why, 'hash': fi.hash})
         print('%-16s translated %3d / %3d   missing DN fields: %s' % (name, sum(f.ok for f in sec.fns), len(sec.fns), ','.join(sec.missing_dn) or '-'))
-    texts['Classes.v'] = ss.emit_classes()
     texts['Gen_Display.v'], dcov = ss.emit_display()
     cov += dcov
+    texts['Gen_Field.v'], fcov = ss.emit_field()
+    cov += fcov
+    texts['Classes.v'] = ss.emit_classes()
     os.makedirs(outdir, exist_ok=True)
     for fn, t in texts.items():
         ch = write_if_changed(os.path.join(outdir, fn), t)
